@@ -337,6 +337,8 @@ pub struct Outcome {
     /// (instances share nothing: it must still be at the epoch).
     pub bystander_pair: (u64, u64),
     pub bystander_sequence: u64,
+    /// The final snapshot (all threads joined, nobody writing) did not complete within 2000 loads.
+    pub final_read_unbounded: bool,
 }
 
 pub struct Plan {
@@ -547,17 +549,34 @@ pub fn run(plan: Plan, target: Target) -> Outcome {
         }
     }
     let results: Vec<Vec<OpResult>> = handles.into_iter().map(|h| h.join().unwrap_or_else(|_| vec![OpResult::Panicked("thread died".into())])).collect();
-    let final_pair = {
-        let (b, v) = abt.snapshot();
-        (b, voucher_bits(v))
-    };
-    let final_sequence = abt.sequence();
+    // Final reads, with every thread joined: nobody writes any more, so a snapshot needs four
+    // loads.  They run under a hook that only counts and gives up after 2000 loads, so that a
+    // reader that spins on a quiescent cell is reported instead of hanging the harness.
+    struct Bounded(std::sync::atomic::AtomicUsize);
+    impl SyncHook for Bounded {
+        fn load(&self, _addr: usize, real: u64, _order: Ordering) -> u64 {
+            if self.0.fetch_add(1, Ordering::Relaxed) > 2000 {
+                panic!("{LIVELOCK_MARKER}: more than 2000 loads in a read with no writer running");
+            }
+            real
+        }
+        fn store(&self, _addr: usize, _real: u64, _value: u64, _order: Ordering) {}
+        fn lock(&self, _addr: usize) {}
+        fn try_lock(&self, _addr: usize) -> bool {
+            true
+        }
+        fn unlock(&self, _addr: usize) {}
+    }
     let bystander = AtomicBaseTime::new();
-    let bystander_pair = {
-        let (b, v) = bystander.snapshot();
-        (b, voucher_bits(v))
-    };
-    let bystander_sequence = bystander.sequence();
+    set_thread_hook(Some(Arc::new(Bounded(std::sync::atomic::AtomicUsize::new(0)))));
+    let finals = crate::engine::panics::catch(|| {
+        let (b, v) = abt.snapshot();
+        let (bb, bv) = bystander.snapshot();
+        ((b, voucher_bits(v)), abt.sequence(), (bb, voucher_bits(bv)), bystander.sequence())
+    });
+    set_thread_hook(None);
+    let final_read_unbounded = finals.is_err();
+    let (final_pair, final_sequence, bystander_pair, bystander_sequence) = finals.unwrap_or(((u64::MAX, 0), u64::MAX, (0, voucher_bits(VOUCH.vouch(0))), 0));
     let st = exec.st.lock().unwrap();
     Outcome {
         results,
@@ -575,5 +594,6 @@ pub fn run(plan: Plan, target: Target) -> Outcome {
         final_sequence,
         bystander_pair,
         bystander_sequence,
+        final_read_unbounded,
     }
 }
